@@ -448,3 +448,108 @@ func C15LocalPath() {
 	sym.Assert(added == 2 && removed == 1, "local/events")
 	sym.Reach("local-path-done")
 }
+
+// C15MixedPaths: a history that crosses the two ways into the registry. The hosting server creates a
+// service locally (Server.NewService); a REMOTE client then unregisters it, or unregisters it and registers
+// the name again (new id), or updates its record; after each step the hosting server's own lookups
+// (Namespace.Resolve, what its local session uses) agree with what every remote client is told by
+// `service(name)`.
+func C15MixedPaths() {
+	d := serviceDirectoryImpl()
+	ns := d.Namespace("tcp://local")
+	srv, err := bus.NewServer(&zzIdleListener{closed: make(chan struct{})}, bus.Yes{}, ns, ServiceDirectoryObject(d))
+	sym.Assert(err == nil, "mixed/server-started")
+	if err != nil {
+		return
+	}
+	d.signal = &zzSignals{}
+	service, err := srv.NewService("svc", zzNopActor{})
+	sym.Assert(err == nil, "mixed/new-service")
+	if err != nil {
+		return
+	}
+	agree := func(label string) {
+		info, rerr := d.Service("svc")
+		id, lerr := ns.Resolve("svc")
+		sym.Assert((rerr == nil) == (lerr == nil), label+"/local-and-remote-lookups-disagree-on-presence")
+		if rerr == nil && lerr == nil {
+			sym.Assert(id == info.ServiceId, label+"/local-and-remote-lookups-disagree-on-the-id")
+		}
+	}
+	agree("mixed/after-local-creation")
+	info, _ := d.Service("svc")
+	switch sym.Choose("remote-operation", 3) {
+	case 0:
+		sym.Assert(d.UnregisterService(service.ServiceID()) == nil, "mixed/remote-unregister-ok")
+		agree("mixed/after-remote-unregister")
+	case 1:
+		sym.Assert(d.UnregisterService(service.ServiceID()) == nil, "mixed/remote-unregister-ok")
+		again := info
+		again.ServiceId = 0
+		again.ProcessId = sym.U32("other-process")
+		sym.Assume(again.ProcessId != 0)
+		id, err := d.RegisterService(again)
+		sym.Assert(err == nil, "mixed/remote-register-ok")
+		agree("mixed/while-the-name-is-reserved")
+		sym.Assert(d.ServiceReady(id) == nil, "mixed/remote-ready-ok")
+		agree("mixed/after-remote-re-registration")
+	default:
+		upd := info
+		upd.ProcessId = sym.U32("new-process")
+		sym.Assume(upd.ProcessId != 0)
+		sym.Assert(d.UpdateServiceInfo(upd) == nil, "mixed/remote-update-ok")
+		agree("mixed/after-remote-update")
+	}
+	sym.Reach("mixed-paths-done")
+}
+
+// C15SlowHandshake: the register / ready handshake with ARBITRARY amounts of time passing between its steps
+// (the clock is a solver variable): a second client asks for a name that is reserved but not ready yet,
+// then both owners complete their handshake in either order. At most one ready service ever holds the name,
+// `service(name)` is never ambiguous, and the name is announced as added once.
+func C15SlowHandshake() {
+	sym.SymbolicClock(true)
+	d := serviceDirectoryImpl()
+	sig := &zzSignals{}
+	d.signal = sig
+	a := zzInfo("svc", 0)
+	b := zzInfo("svc", 0)
+	b.ProcessId = 2
+	id1, err := d.RegisterService(a)
+	sym.Assert(err == nil, "slow/first-register-ok")
+	id2, err2 := d.RegisterService(b)
+	var r1, r2 error
+	if sym.Bool("second-owner-completes-first") {
+		if err2 == nil {
+			r2 = d.ServiceReady(id2)
+		}
+		r1 = d.ServiceReady(id1)
+	} else {
+		r1 = d.ServiceReady(id1)
+		if err2 == nil {
+			r2 = d.ServiceReady(id2)
+		}
+	}
+	list, _ := d.Services()
+	holders := 0
+	for _, i := range list {
+		if i.Name == "svc" {
+			holders++
+		}
+	}
+	sym.Assert(holders <= 1, "slow/name-held-by-two-ready-services")
+	if err2 == nil {
+		sym.Assert(id1 != id2, "slow/id-issued-twice")
+		sym.Assert(!(r1 == nil && r2 == nil), "slow/both-owners-of-one-name-became-ready")
+	} else {
+		sym.Assert(r1 == nil, "slow/first-owner-could-not-complete")
+	}
+	added := 0
+	for _, e := range sig.log {
+		if e.added {
+			added++
+		}
+	}
+	sym.Assert(added <= 1, "slow/name-announced-twice")
+	sym.Reach("slow-handshake-done")
+}
